@@ -52,6 +52,7 @@ class TypeGen:
         self.allow_stype = not schema_only
         self.allow_talias = True
         self.allow_boxed = not schema_only
+        self.boxed_prob = 0.07
         self.shuffled_names = True       # own fields a0 / e1 / u2 ...: declaration order differs from sorted order
         self.dc_config_fn = dc_config_fn
         self.mixins = mixins
@@ -401,15 +402,20 @@ class TypeGen:
                 f["dmode"] = r.choice(["default", "factory"])
                 f["dseed"] = r.getrandbits(32)
             fields.append(f)
-        if self.allow_boxed and nfields is None and r.random() < 0.07:
+        if self.allow_boxed and nfields is None and r.random() < self.boxed_prob:
             # a member of a class only a registered SerializationStrategy can (de)serialize
             bname = self.fresh("BX")
             self.fam.add({"k": "boxed", "name": bname, "flavour": r.choice(["plain", "dict", "annotated", "annotated", "annotated-sub", "annotated-sub"])})
             B = ("boxed", bname)
             shape = r.choice([B, B, ("opt", B, "Optional"), ("seq", "List", B), ("map", "Dict", ("str",), B), ("tuple", "Tuple", (B, ("int",)))])
             f = {"n": "bx", "t": shape}
-            if shape == B and r.random() < 0.5:
+            x = r.random()
+            if shape == B and x < 0.35:
                 f["meta"] = {"serialization_strategy": f"{bname}_S"}        # registered on the field instead of the Config
+            elif shape == B and x < 0.6:
+                # one-way on the field (deserialize only): serialization falls through to the Config-level registration
+                f["meta"] = {"serialization_strategy": f"{{'deserialize': {bname}_DE}}"}
+                f["boxed_de"] = bname
             if defaults_started or r.random() < 0.3:
                 f.update(dmode="factory", dseed=r.getrandbits(32))
             fields.append(f)
